@@ -3,7 +3,8 @@
      lake env lean --run Audit.lean <module>[,<module>...] <theorem name>...
   Prints one JSON object per theorem: whether the constant exists in the compiled
   environment, whether it is a theorem, the axioms it depends on, and its pretty-printed
-  statement (compared by the harness with lean/theorems.lock).
+  statement and the structural hash of its type (the hash is compared by the harness with
+  lean/theorems.lock; the pretty-printed text depends on which modules are imported).
 -/
 import Lean
 open Lean Meta
@@ -19,7 +20,8 @@ def auditOne (n : String) : CoreM Json := do
     let stmt ← try (do let f ← MetaM.run' (ppExpr ci.type); pure (f.pretty 100))
                catch _ => pure "<pp failed>"
     pure (Json.mkObj [("name", .str n), ("exists", .bool true), ("theorem", .bool isThm),
-      ("axioms", .arr (axs.map (fun a => Json.str a.toString))), ("statement", .str stmt)])
+      ("axioms", .arr (axs.map (fun a => Json.str a.toString))), ("statement", .str stmt),
+      ("hash", .str (toString ci.type.hash))])
 
 unsafe def main (args : List String) : IO UInt32 := do
   match args with
